@@ -1,5 +1,7 @@
 package runtime
 
+import "github.com/open2b/scriggo/ast"
+
 // C07: escaped values decode back to the exact original text.
 
 // vref_cssDecode decodes CSS escapes in a string token per CSS Syntax 3 §4.3.7:
@@ -176,6 +178,32 @@ func vc07_query(n int) {
 	vassert(string(dec) == s, "query-roundtrip")
 }
 
+// a plain string shown as the value of a query parameter, through the
+// renderer's URL machine: the rendered bytes, decoded as the browser does
+// (character references, then percent-decoding), give back the string
+func vc07_urlvalue(n int, quoted bool) {
+	s := vsym_string(n)
+	var w vWriter
+	r := newRenderer(&w)
+	vassert(r.Text([]byte("/p?q="), true, false) == nil, "prefix-written")
+	pre := len(w.buf)
+	ctx := Context(ast.ContextUnquotedAttr)
+	if quoted {
+		ctx = Context(ast.ContextQuotedAttr)
+	}
+	vassert(r.Show(&env{typeof: typeOfFunc}, s, ctx|0x80) == nil, "value-shown")
+	out := w.buf[pre:]
+	h, ok := vref_htmlDecode(out)
+	vassert(ok, "well-formed-character-references")
+	dec, ok := vref_percentDecode(h)
+	vassert(ok, "well-formed-percent-escapes")
+	vassert(string(dec) == s, "url-query-value-roundtrip")
+}
+
+func vh_c07_urlvalq_q() { vc07_urlvalue(2, true) }
+func vh_c07_urlvalu_q() { vc07_urlvalue(2, false) }
+func vh_c07_urlvalq_t() { vc07_urlvalue(4, true) }
+func vh_c07_urlvalu_t() { vc07_urlvalue(3, false) }
 func vh_c07_css_q()   { vc07_css(3) }
 func vh_c07_css_t()   { vc07_css(5) }
 func vh_c07_html_q()  { vc07_html(4) }
